@@ -9,7 +9,13 @@
    every prefix of valid streams with the real matchers and the real SelectStreamFactoryProtocol.
    End to end: the same zone chunkings written by a raw TCP client into an in-process MOSN (Auto listener, real
    proxy.OnData); the next chunk is written only after the net.read hook reported the previous one; the requests
-   the HTTP/1 upstream receives are validated by the same trace spec."""
+   the HTTP/1 upstream receives are validated by the same trace spec.
+   Transport dimension: the Timeout action (read deadline expires between two chunks: nothing lost, no state changed)
+   and the peeking wrapper of a TLS-inspector listener are part of Framing.tla; TLC enumerates schedules of chunks and
+   expiring deadlines, the driver plays each over the plain socket, mtls.Conn (inspector, plain-text client) and a real
+   TLS client through mosn's TLS server side, letting the deadline of the waiting Read expire on demand (no sleeping);
+   e2e: listener with inspector + tls_context, plain-text and TLS clients, and a phase with a 150 ms read deadline in
+   which the client continues only after the net.read hook showed a read that returned without data in flight."""
 import concurrent.futures as cf
 import json, os, random, re
 import vlib
@@ -86,7 +92,7 @@ def run(ctx):
     lines = sorted(set(open(raw).read().splitlines()))
     small = [ln for ln in lines if len(json.loads(ln)["frames"]) <= 2]
     big = [ln for ln in lines if len(json.loads(ln)["frames"]) > 2]
-    cap = 12000
+    cap = 8000
     sampled = len(big) > cap
     if sampled:
         big = rng.sample(big, cap)
@@ -99,7 +105,7 @@ def run(ctx):
         plines = keep + rng.sample(rest, min(pcap, len(rest)))
         sampled = True
     tlines = sorted(set(open(traw).read().splitlines()))
-    tcap = 1500
+    tcap = 1000
     if len(tlines) > tcap:
         tlines = rng.sample(tlines, tcap)
         sampled = True
@@ -189,4 +195,6 @@ def run(ctx):
     ctx.assumptions += ["streams are concatenations of valid request frames on which exactly one registered matcher finally succeeds",
                         "HTTP/2 messages are sent sequentially (no interleaving of streams); tars packets < 256 bytes",
                         "segmentation is imposed below pkg/network (net.Conn.Read returns exactly the chunks); the kernel/TLS layers are out of scope",
+                        "layer 1 builds the inspector/TLS server side as serverContextManager.Conn does (that function only wraps *net.TCPConn); "
+                        "the real function is exercised in the e2e part; TLS clients are not paused in e2e (a handshake slower than the deadline fails by design)",
                         "a Dispatch that has not returned after 25 s (or allocated > 250 MB) on < 1 KB of input counts as a hang"]
